@@ -56,6 +56,11 @@ func runC01(c *Ctx) {
 	c.As("C02.R1", "C01.R8.rights", func() { c02R1(c, p) })
 	// … and an undo must hand the rights back unchanged: the undo token's fields must not clobber each other
 	c.As("C03.R8", "C01.R8.undo-token", func() { c03R8(c, p) })
+	// moves that enter through the acceptor (table move, GUI move list) are playable too: the acceptor must agree
+	// with the generator
+	c.As("C05.R", "C01.R9.acceptor:R", func() { c05R1R4(c, p); c05R2(c, p) })
+	// the en-passant target 0 is "none", not a1
+	epNullRule(c, p, "C01.R10.ep-null")
 }
 
 // descends: own functions from which board.MakeMove is reachable (they play moves on the board).
